@@ -9,6 +9,9 @@ use serde::{Deserialize, Serialize};
 
 #[derive(Debug, Clone, Serialize, Deserialize)]
 pub struct Case {
+    /// size of an ambient rayon pool the calls are (also) made in
+    #[serde(default)]
+    pub pool: usize,
     pub f32: bool,
     pub n: usize,
     pub d: usize,
@@ -34,8 +37,9 @@ fn dim() -> impl Strategy<Value = usize> {
 }
 
 fn strategy() -> BoxedStrategy<Case> {
-    bx((any::<bool>(), dim(), dim(), 1usize..40, seed_strategy(), seed_strategy()).prop_map(
-        |(f32, n, d, n_more, seed, seed2)| Case {
+    bx((any::<bool>(), dim(), dim(), 1usize..40, seed_strategy(), seed_strategy(), prop_oneof![2 => Just(0usize), 3 => 1usize..=16]).prop_map(
+        |(f32, n, d, n_more, seed, seed2, pool)| Case {
+            pool,
             f32,
             n,
             d,
@@ -46,7 +50,7 @@ fn strategy() -> BoxedStrategy<Case> {
     ))
 }
 
-trait Fl: num_traits::Float + num_traits::FromPrimitive + std::fmt::Debug + 'static {
+trait Fl: num_traits::Float + num_traits::FromPrimitive + std::fmt::Debug + Send + 'static {
     fn bits(self) -> u64;
     fn f(self) -> f64;
 }
@@ -105,6 +109,35 @@ fn check_t<T: Fl>(c: &Case, cov: &mut Cov) -> CheckResult {
         let other: Vec<Vec<T>> = init_with_seed::<T>(n, d, c.seed2);
         ensure!(!same(&a, &other), "init-seed-ignored", "seeds {} and {} give identical output for ({n},{d})", c.seed, c.seed2);
         cov.class("seed-pair-differs");
+    }
+    // pure functions of their arguments: also when called from inside a rayon pool of any size
+    // and from another thread
+    if c.pool > 0 {
+        let tp = rayon::ThreadPoolBuilder::new().num_threads(c.pool).build().map_err(|e| Fail::new("harness", format!("pool: {e}")))?;
+        let in_pool: Vec<Vec<T>> = tp.install(|| init_with_seed::<T>(n, d, c.seed));
+        ensure!(same(&a, &in_pool), "init-pure", "init_with_seed({n},{d},{}) called inside a {}-thread rayon pool differs from the call outside", c.seed, c.pool);
+        let big_in_pool: Vec<Vec<T>> = tp.install(|| init_with_seed::<T>(n2, d, c.seed));
+        ensure!(same(&big_in_pool[..n], &a), "init-prefix", "prefix property fails inside a {}-thread rayon pool (n {n} vs {n2}, d {d})", c.pool);
+        let det_in_pool: Vec<Vec<T>> = tp.install(|| init_det::<T>(n, d));
+        ensure!(same(&det, &det_in_pool), "init-pure", "init_det({n},{d}) inside a {}-thread pool differs", c.pool);
+        cov.class("inside-rayon-pool");
+    }
+    let (tn, td, ts) = (n, d, c.seed);
+    let from_thread: Vec<Vec<T>> = std::thread::spawn(move || init_with_seed::<T>(tn, td, ts)).join().map_err(|_| Fail::new("init-panic", "init_with_seed panicked in a spawned thread"))?;
+    ensure!(same(&a, &from_thread), "init-pure", "init_with_seed({n},{d},{}) called on another thread differs", c.seed);
+    // OS-seeded variant: independent draws also across threads
+    if n * d >= 4 {
+        let hs: Vec<std::thread::JoinHandle<Vec<Vec<T>>>> = (0..3).map(|_| std::thread::spawn(move || init::<T>(tn, td))).collect();
+        let outs: Vec<Vec<Vec<T>>> = hs.into_iter().map(|h| h.join().unwrap()).collect();
+        for i in 0..outs.len() {
+            for j in i + 1..outs.len() {
+                ensure!(!same(&outs[i], &outs[j]), "init-os-constant", "OS-seeded init({n},{d}) returned identical values on two different threads");
+            }
+        }
+        // sequentially created threads, too (a per-thread generator cloned from one source)
+        let first: Vec<Vec<T>> = std::thread::spawn(move || init::<T>(tn, td)).join().unwrap();
+        let second: Vec<Vec<T>> = std::thread::spawn(move || init::<T>(tn, td)).join().unwrap();
+        ensure!(!same(&first, &second), "init-os-constant", "OS-seeded init({n},{d}) returned identical values on two threads created one after the other");
     }
     // OS-seeded variant: shape and finiteness
     let os: Vec<Vec<T>> = no_panic(|| init::<T>(n, d)).map_err(|m| Fail::new("init-panic", format!("init panicked: {m}")))?;
